@@ -232,10 +232,20 @@ impl<F: Write + Seek> MiniAllocator<F> {
     ) -> io::Result<u32> {
         debug_assert_ne!(start_mini_sector, consts::END_OF_CHAIN);
         let mut last_mini_sector = start_mini_sector;
+        let mut num_mini_sectors = 0;
         loop {
-            let next = self.minifat[last_mini_sector as usize];
+            let next = self.next_mini_sector(last_mini_sector)?;
             if next == consts::END_OF_CHAIN {
                 break;
+            }
+            // A mini chain can't be longer than the MiniFAT, unless it has a
+            // cycle.
+            num_mini_sectors += 1;
+            if num_mini_sectors > self.minifat.len() {
+                invalid_data!(
+                    "Mini chain starting at {} has a loop",
+                    start_mini_sector
+                );
             }
             last_mini_sector = next;
         }
@@ -357,7 +367,7 @@ impl<F: Write + Seek> MiniAllocator<F> {
     ) -> io::Result<()> {
         let mut mini_sector = start_mini_sector;
         while mini_sector != consts::END_OF_CHAIN {
-            let next = self.minifat[mini_sector as usize];
+            let next = self.next_mini_sector(mini_sector)?;
             self.free_mini_sector(mini_sector)?;
             mini_sector = next;
         }
@@ -370,7 +380,7 @@ impl<F: Write + Seek> MiniAllocator<F> {
         &mut self,
         mini_sector: u32,
     ) -> io::Result<()> {
-        let next = self.minifat[mini_sector as usize];
+        let next = self.next_mini_sector(mini_sector)?;
         self.set_minifat(mini_sector, consts::END_OF_CHAIN)?;
         self.free_mini_chain(next)?;
         Ok(())
